@@ -26,13 +26,9 @@ M = [('r3_revert_D3_eventmonitor_port',
   None),
  ('r1_revert_D1_mux_shadows',
   'amaranth_soc/csr/bus.py',
-  [('    def __init__(self, memory_map, *, shadow_overlaps=None):\n'
-    '        self._check_memory_map(memory_map)\n'
-    '        self._shadow_overlaps = shadow_overlaps\n'
+  [('        self._shadow_overlaps = shadow_overlaps\n'
     '        super().__init__({\n'
     '            "bus": In(Signature(addr_width=memory_map.addr_width,\n',
-    '    def __init__(self, memory_map, *, shadow_overlaps=None):\n'
-    '        self._check_memory_map(memory_map)\n'
     '        self._r_shadow = self._Shadow(memory_map.data_width, shadow_overlaps, name="r_shadow")\n'
     '        self._w_shadow = self._Shadow(memory_map.data_width, shadow_overlaps, name="w_shadow")\n'
     '        super().__init__({\n'
@@ -255,6 +251,12 @@ M = [('r3_revert_D3_eventmonitor_port',
   'amaranth_soc/csr/action.py',
   [('        hw_set  = Value.cast(self.set)\n\n        for i, storage_bit in enumerate(storage):\n',
     '        hw_set  = Value.cast(self.set)\n\n        for i, storage_bit in enumerate(self._storage):\n')],
+  None),
+ # D17 reverted: shadow_overlaps stored unchecked
+ ('r22_D17_shadow_overlaps_unchecked',
+  'amaranth_soc/csr/bus.py',
+  [('        if shadow_overlaps is not None and not (isinstance(shadow_overlaps, int) and\n                                                shadow_overlaps >= 0):\n            raise TypeError(f"Shadow overlaps must be a non-negative integer or None, not "\n                            f"{shadow_overlaps!r}")\n',
+    '')],
   None),
  ('r17_D12_pinsignature_eq_constant',
   'amaranth_soc/gpio.py',
